@@ -2,7 +2,7 @@
 """tools/keep_seed.py <Cxx> [n]: copy a confirmed seeded change from /tmp/seed/<Cxx> into /verif/seeded/<Cxx>-<n>/."""
 import json, os, re, shutil, sys
 p = sys.argv[1]; n = sys.argv[2] if len(sys.argv) > 2 else "1"
-src, dst = f"/tmp/seed/{p}", f"/verif/seeded/{p}-{n}"
+src, dst = os.environ.get("SEED_SRC", f"/tmp/seed/{p}"), f"/verif/seeded/{p}-{n}"
 os.makedirs(dst, exist_ok=True)
 for f in ("patch.diff", "demo.py"):
     shutil.copy(f"{src}/{f}", f"{dst}/{f}")
